@@ -6,6 +6,7 @@ package comp
 import (
 	"encoding/json"
 	"fmt"
+	"reflect"
 	"sort"
 	"strconv"
 	"strings"
@@ -124,24 +125,106 @@ type sndWorld struct {
 	w      *sndW
 	s      api.SenderInterface
 	local  *model.FeatureAddressType
-	hashes map[string]int // canonical (destination, command) -> abstract hash id
+	hashes map[string]int // canonical request identity (the key line below) -> id of the SPEC monitor
+	devs   map[string]int // device address -> abstract id (1..)
+	atoms  []model.CmdType // distinct commands met so far (compared with reflect.DeepEqual); id = index + 1
 }
 
 func newSndWorld() *sndWorld {
 	w := &sndW{}
-	return &sndWorld{w: w, s: spine.NewSender(w), local: h.FA("loc", []uint{1}, 1), hashes: map[string]int{}}
+	return &sndWorld{w: w, s: spine.NewSender(w), local: h.FA("loc", []uint{1}, 1), hashes: map[string]int{}, devs: map[string]int{}}
 }
 
-func (sw *sndWorld) hashID(dest *model.FeatureAddressType, cmd []model.CmdType) int {
-	b, _ := json.Marshal(cmd)
-	k := dest.String() + "-" + string(b)
-	if id, ok := sw.hashes[k]; ok {
-		return id
+// hashID is the harness's own notion of "identical request (same destination, same command)": the destination's
+// device, entity path and feature, and the command LIST — every command, in order, and how many. It is computed from
+// the fields (not through model.FeatureAddressType.String, not through one json.Marshal of the list, which is what
+// the code under test hashes), commands are compared with reflect.DeepEqual. Returns the id the SPEC monitor uses and
+// the structured key for the model ("<device> <feature> <entity,…|-> <cmd,…|->", Spine.SndK.Key; 0 = absent).
+func (sw *sndWorld) hashID(dest *model.FeatureAddressType, cmd []model.CmdType) (int, string) {
+	dev, feat := 0, 0
+	if dest.Device != nil {
+		d := string(*dest.Device)
+		if _, ok := sw.devs[d]; !ok {
+			sw.devs[d] = len(sw.devs) + 1
+		}
+		dev = sw.devs[d]
 	}
-	id := len(sw.hashes) + 1
-	sw.hashes[k] = id
-	return id
+	if dest.Feature != nil {
+		feat = int(*dest.Feature) + 1
+	}
+	ent := "-"
+	if len(dest.Entity) > 0 {
+		var es []string
+		for _, e := range dest.Entity {
+			es = append(es, strconv.Itoa(int(e)))
+		}
+		ent = strings.Join(es, ",")
+	}
+	cs := "-"
+	if len(cmd) > 0 {
+		var ids []string
+		for _, c := range cmd {
+			id := 0
+			for i := range sw.atoms {
+				if reflect.DeepEqual(sw.atoms[i], c) {
+					id = i + 1
+					break
+				}
+			}
+			if id == 0 {
+				sw.atoms = append(sw.atoms, c)
+				id = len(sw.atoms)
+			}
+			ids = append(ids, strconv.Itoa(id))
+		}
+		cs = strings.Join(ids, ",")
+	}
+	k := fmt.Sprintf("%d %d %s %s", dev, feat, ent, cs)
+	if _, ok := sw.hashes[k]; !ok {
+		sw.hashes[k] = len(sw.hashes) + 1
+	}
+	return sw.hashes[k], k
 }
+
+// sndKDests: destinations that differ from each other in exactly one component or in several (device, entity path,
+// feature; absent device / feature, empty and longer entity paths, numbers whose decimal renderings share digits).
+// The first three are the destinations of the ops `req` / `reqf` / `nest` / `nestreq`.
+func sndKDests() []*model.FeatureAddressType {
+	fa := func(dev string, ent []uint, feat int) *model.FeatureAddressType {
+		a := &model.FeatureAddressType{Entity: []model.AddressEntityType{}}
+		if dev != "" {
+			a.Device = util.Ptr(model.AddressDeviceType(dev))
+		}
+		for _, e := range ent {
+			a.Entity = append(a.Entity, model.AddressEntityType(e))
+		}
+		if feat >= 0 {
+			a.Feature = util.Ptr(model.AddressFeatureType(feat))
+		}
+		return a
+	}
+	return []*model.FeatureAddressType{
+		h.FA("rem", []uint{1}, 1), h.FA("rem", []uint{1}, 2), h.FA("rem", []uint{2}, 1),
+		fa("rem2", []uint{1}, 1), fa("", []uint{1}, 1), fa("rem", []uint{1}, -1), fa("rem", nil, 1),
+		fa("rem", []uint{1, 1}, 1), fa("rem", []uint{1, 2}, 1), fa("rem", []uint{2, 1}, 1), fa("rem", []uint{11}, 1),
+		fa("rem", []uint{1}, 11), fa("rem", []uint{1, 1}, -1), fa("rem", []uint{1}, 0), fa("rem", []uint{0}, 1),
+	}
+}
+
+// sndCmdList parses "1.2.3" (commands sndCmd(1), sndCmd(2), sndCmd(3)) or "-" (an empty command list).
+func sndCmdList(s string) []model.CmdType {
+	out := []model.CmdType{}
+	if s == "-" {
+		return out
+	}
+	for _, x := range strings.Split(s, ".") {
+		c, _ := strconv.Atoi(x)
+		out = append(out, sndCmd(c))
+	}
+	return out
+}
+
+var sndClassifiers = []model.CmdClassifierType{model.CmdClassifierTypeRead, model.CmdClassifierTypeCall, model.CmdClassifierTypeWrite}
 
 // wire returns the counters of the datagrams written since the last call.
 func (sw *sndWorld) wire() []uint64 {
@@ -183,6 +266,7 @@ type specSnd struct {
 	notifies   []uint64 // counters of notifications, in order
 	promoted   bool     // some lookup hit happened (LRU promotion possible)
 	overtaken  map[uint64]bool // requests answered while they were being written (before Request returned)
+	okWithheld int             // withholdings the SPEC accepts (identical request unanswered, its counter returned)
 }
 
 func newSpecSnd() *specSnd {
@@ -222,7 +306,8 @@ func runSenderHistory(r *h.Report, d *h.Driver, ops []string, corpus bool) {
 	var done []string
 	withheld, hits := 0, 0
 	diverged := false
-	dests := []*model.FeatureAddressType{h.FA("rem", []uint{1}, 1), h.FA("rem", []uint{1}, 2), h.FA("rem", []uint{2}, 1)}
+	kdests := sndKDests()
+	dests := kdests[:3]
 	reqHdr := func(ctr uint64) *model.HeaderType {
 		return &model.HeaderType{AddressSource: dests[0], AddressDestination: sw.local, MsgCounter: util.Ptr(model.MsgCounterType(ctr))}
 	}
@@ -232,19 +317,37 @@ func runSenderHistory(r *h.Report, d *h.Driver, ops []string, corpus bool) {
 		var impl2, line2 string // second model op of a compound step
 		nontrivial := ""
 		switch f[0] {
-		case "req", "reqf", "sub", "unsub", "bind", "unbind":
+		case "req", "reqf", "reqm", "reqmf", "sub", "unsub", "bind", "unbind":
 			di, _ := strconv.Atoi(f[1])
 			ci, _ := strconv.Atoi(f[2])
 			dest := dests[di%len(dests)]
 			var ctr *model.MsgCounterType
 			var err error
 			var hid int
+			var key string
 			var flownRef uint64
 			flownInside := false
+			multi := ""
 			switch f[0] {
+			case "reqm", "reqmf":
+				// reqm <dest> <c1.c2.…|-> <classifier>: a request whose payload carries 0, 1 or several commands, to one of
+				// the destinations of sndKDests, with a classifier chosen independently of the commands (the classifier is
+				// not part of the identity: "same destination, same command"); reqmf … <ref>: answered while in flight
+				dest = kdests[di%len(kdests)]
+				cmd := sndCmdList(f[2])
+				hid, key = sw.hashID(dest, cmd)
+				cl, _ := strconv.Atoi(f[3])
+				cls := sndClassifiers[cl%len(sndClassifiers)]
+				if f[0] == "reqm" {
+					ctr, err = sw.s.Request(cls, sw.local, dest, cl%2 == 1, cmd)
+				} else {
+					rf, _ := strconv.Atoi(f[4])
+					flownRef, flownInside = sw.requestInFlight(uint64(rf), func() { ctr, err = sw.s.Request(cls, sw.local, dest, cl%2 == 1, cmd) })
+				}
+				multi = fmt.Sprintf("reqm:%dcmd", len(cmd))
 			case "req":
 				cmd := []model.CmdType{sndCmd(ci)}
-				hid = sw.hashID(dest, cmd)
+				hid, key = sw.hashID(dest, cmd)
 				cls := []model.CmdClassifierType{model.CmdClassifierTypeRead, model.CmdClassifierTypeCall}[ci%2]
 				ctr, err = sw.s.Request(cls, sw.local, dest, ci%3 == 0, cmd)
 			case "reqf":
@@ -252,32 +355,32 @@ func runSenderHistory(r *h.Report, d *h.Driver, ops []string, corpus bool) {
 				// by another goroutine while the request is being written, i.e. before Request has returned
 				rf, _ := strconv.Atoi(f[3])
 				cmd := []model.CmdType{sndCmd(ci)}
-				hid = sw.hashID(dest, cmd)
+				hid, key = sw.hashID(dest, cmd)
 				cls := []model.CmdClassifierType{model.CmdClassifierTypeRead, model.CmdClassifierTypeCall}[ci%2]
 				flownRef, flownInside = sw.requestInFlight(uint64(rf), func() { ctr, err = sw.s.Request(cls, sw.local, dest, ci%3 == 0, cmd) })
 			case "sub":
 				ft := []model.FeatureTypeType{model.FeatureTypeTypeLoadControl, model.FeatureTypeTypeMeasurement}[ci%2]
 				cmd := []model.CmdType{{NodeManagementSubscriptionRequestCall: spine.NewNodeManagementSubscriptionRequestCallType(sw.local, dest, ft)}}
-				hid = sw.hashID(spine.NodeManagementAddress(dest.Device), cmd)
+				hid, key = sw.hashID(spine.NodeManagementAddress(dest.Device), cmd)
 				ctr, err = sw.s.Subscribe(sw.local, dest, ft)
 			case "unsub":
 				cmd := []model.CmdType{{NodeManagementSubscriptionDeleteCall: spine.NewNodeManagementSubscriptionDeleteCallType(sw.local, dest)}}
-				hid = sw.hashID(spine.NodeManagementAddress(dest.Device), cmd)
+				hid, key = sw.hashID(spine.NodeManagementAddress(dest.Device), cmd)
 				ctr, err = sw.s.Unsubscribe(sw.local, dest)
 			case "bind":
 				ft := []model.FeatureTypeType{model.FeatureTypeTypeLoadControl, model.FeatureTypeTypeMeasurement}[ci%2]
 				cmd := []model.CmdType{{NodeManagementBindingRequestCall: spine.NewNodeManagementBindingRequestCallType(sw.local, dest, ft)}}
-				hid = sw.hashID(spine.NodeManagementAddress(dest.Device), cmd)
+				hid, key = sw.hashID(spine.NodeManagementAddress(dest.Device), cmd)
 				ctr, err = sw.s.Bind(sw.local, dest, ft)
 			case "unbind":
 				cmd := []model.CmdType{{NodeManagementBindingDeleteCall: spine.NewNodeManagementBindingDeleteCallType(sw.local, dest)}}
-				hid = sw.hashID(spine.NodeManagementAddress(dest.Device), cmd)
+				hid, key = sw.hashID(spine.NodeManagementAddress(dest.Device), cmd)
 				ctr, err = sw.s.Unbind(sw.local, dest)
 			}
-			line = fmt.Sprintf("req %d", hid)
-			if f[0] == "reqf" {
+			line = "reqk " + key
+			if f[0] == "reqf" || f[0] == "reqmf" {
 				if flownRef == 0 || flownInside {
-					line = fmt.Sprintf("reqf %d %s", hid, f[3])
+					line = fmt.Sprintf("reqkf %s %s", key, f[len(f)-1])
 				} else {
 					// the response path waited for the request to finish: request, then response
 					line2, impl2 = fmt.Sprintf("resp %d", flownRef), "ok"
@@ -294,6 +397,9 @@ func runSenderHistory(r *h.Report, d *h.Driver, ops []string, corpus bool) {
 			sp.onWire(r, done, wire)
 			if ctr != nil {
 				prev, pending := sp.unanswered[hid]
+				if len(wire) == 0 && pending && uint64(*ctr) == prev {
+					sp.okWithheld++
+				}
 				switch {
 				case len(wire) == 0 && !pending && sp.overtaken[uint64(*ctr)]:
 					r.SpecFail("answer-overtakes-insert", done, fmt.Sprintf("request hash %d withheld (returned %d) although request %d was answered — the response was processed while the request was being written, before it was remembered", hid, *ctr, *ctr))
@@ -312,6 +418,9 @@ func runSenderHistory(r *h.Report, d *h.Driver, ops []string, corpus bool) {
 				} else {
 					kind = "req:withheld"
 					withheld++
+				}
+				if multi != "" {
+					r.Eval(multi+":"+strings.TrimPrefix(kind, "req:"), "")
 				}
 				if flownRef != 0 {
 					// the response arrived after the datagram was on the connection
@@ -484,8 +593,9 @@ func runSenderHistory(r *h.Report, d *h.Driver, ops []string, corpus bool) {
 					ci, _ := strconv.Atoi(dc[1])
 					cmd := []model.CmdType{sndCmd(ci)}
 					dest := dests[di%len(dests)]
-					hids[i] = sw.hashID(dest, cmd)
-					lns[i] = fmt.Sprintf("req %d", hids[i])
+					var key string
+					hids[i], key = sw.hashID(dest, cmd)
+					lns[i] = "reqk " + key
 					c, err := sw.s.Request(model.CmdClassifierTypeRead, sw.local, dest, false, cmd)
 					if ret[i] == "" {
 						ret[i] = fmt.Sprintf("%s %d", ctrS(c), h.B2i(seen[i] != 0))
@@ -576,7 +686,7 @@ func runSenderHistory(r *h.Report, d *h.Driver, ops []string, corpus bool) {
 			ci, _ := strconv.Atoi(f[2])
 			dest := dests[di%len(dests)]
 			cmd := []model.CmdType{sndCmd(ci)}
-			hid := sw.hashID(dest, cmd)
+			hid, key := sw.hashID(dest, cmd)
 			var c2 *model.MsgCounterType
 			fin := make(chan struct{})
 			early := false
@@ -623,7 +733,7 @@ func runSenderHistory(r *h.Report, d *h.Driver, ops []string, corpus bool) {
 			}
 			kind = "nestreq"
 			r.Eval("nest:inner", "")
-			line, impl = fmt.Sprintf("req %d", hid), fmt.Sprintf("%s %d", ctrS(c1), h.B2i(fired))
+			line, impl = "reqk "+key, fmt.Sprintf("%s %d", ctrS(c1), h.B2i(fired))
 			if err != nil {
 				impl = "error " + err.Error()
 			}
@@ -632,7 +742,7 @@ func runSenderHistory(r *h.Report, d *h.Driver, ops []string, corpus bool) {
 				diverged = true
 			}
 			// second caller: in the model it runs after the first has finished
-			line, impl = fmt.Sprintf("req %d", hid), fmt.Sprintf("%s %d", ctrS(c2), h.B2i(len(wire) == 2 || (!fired && len(wire) == 1)))
+			line, impl = "reqk "+key, fmt.Sprintf("%s %d", ctrS(c2), h.B2i(len(wire) == 2 || (!fired && len(wire) == 1)))
 			if early {
 				impl += " (entered Request while the first caller held the request mutex)"
 			}
@@ -703,8 +813,34 @@ func genSenderHistory(rng interface{ Intn(int) int }, n int) []string {
 	if rng.Intn(4) == 0 {
 		nc = 30 + rng.Intn(20) // more than 20 distinct unanswered requests
 	}
+	// requests with 0..3 commands over a small pool: few destinations that differ in one component, few commands, so
+	// that equal prefixes with different tails, different lengths and permutations meet while unanswered
+	nkd := len(sndKDests())
+	pool := make([]int, 1+rng.Intn(4))
+	for i := range pool {
+		pool[i] = rng.Intn(nkd)
+	}
+	na := 2 + rng.Intn(2)
+	mlist := func() string {
+		l := []int{1, 1, 2, 2, 2, 3, 3, 0}[rng.Intn(8)]
+		if l == 0 {
+			return "-"
+		}
+		var cs []string
+		for j := 0; j < l; j++ {
+			cs = append(cs, strconv.Itoa(rng.Intn(na)))
+		}
+		return strings.Join(cs, ".")
+	}
 	for i := 0; i < n; i++ {
 		switch x := rng.Intn(100); {
+		case x < 45 && rng.Intn(3) == 0:
+			if rng.Intn(8) == 0 {
+				ops = append(ops, fmt.Sprintf("reqmf %d %s %d 0", pool[rng.Intn(len(pool))], mlist(), rng.Intn(3)))
+			} else {
+				ops = append(ops, fmt.Sprintf("reqm %d %s %d", pool[rng.Intn(len(pool))], mlist(), rng.Intn(3)))
+			}
+			issued++
 		case x < 45:
 			if y := rng.Intn(8); y == 0 {
 				// answered while in flight: mostly by the response to this very request, sometimes to another counter
@@ -762,6 +898,85 @@ func genSenderHistory(rng interface{ Intn(int) int }, n int) []string {
 		}
 	}
 	return ops
+}
+
+func sndDestS(a *model.FeatureAddressType) string {
+	d, f := "<nil>", "<nil>"
+	if a.Device != nil {
+		d = string(*a.Device)
+	}
+	if a.Feature != nil {
+		f = strconv.Itoa(int(*a.Feature))
+	}
+	return fmt.Sprintf("device %s entity %v feature %s", d, a.Entity, f)
+}
+
+// sndLists: all command lists of length 0..maxLen over the commands 1..atoms ("-" = empty).
+func sndLists(atoms, maxLen int) []string {
+	out := []string{"-"}
+	level := []string{""}
+	for l := 1; l <= maxLen; l++ {
+		var next []string
+		for _, p := range level {
+			for a := 1; a <= atoms; a++ {
+				x := strconv.Itoa(a)
+				if p != "" {
+					x = p + "." + x
+				}
+				next = append(next, x)
+			}
+		}
+		out = append(out, next...)
+		level = next
+	}
+	return out
+}
+
+// sndPairGrid: for every ordered pair (A, B) of requests — destination of sndKDests x command list — a fresh Sender
+// gets A and then, A unanswered, B. SPEC: B is withheld only if B is identical to A (same destination, same command
+// list), and then with A's counter. No model involved (the monitor alone judges; identity = index equality, the
+// destinations and lists of the grid are pairwise different by construction).
+func sndPairGrid(r *h.Report, lists []string) {
+	kd := sndKDests()
+	cmds := make([][]model.CmdType, len(lists))
+	for i, l := range lists {
+		cmds[i] = sndCmdList(l)
+	}
+	local := h.FA("loc", []uint{1}, 1)
+	reported := 0
+	for da := range kd {
+		for la := range lists {
+			for db := range kd {
+				for lb := range lists {
+					w := &h.W{}
+					s := spine.NewSender(w)
+					c1, err1 := s.Request(model.CmdClassifierTypeRead, local, kd[da], false, cmds[la])
+					n1 := len(w.Take())
+					c2, err2 := s.Request(model.CmdClassifierTypeRead, local, kd[db], false, cmds[lb])
+					n2 := len(w.Take())
+					r.Eval("pairgrid", "")
+					same := da == db && la == lb
+					ops := []string{fmt.Sprintf("reqm %d %s 0", da, lists[la]), fmt.Sprintf("reqm %d %s 0", db, lists[lb])}
+					switch {
+					case err1 != nil || err2 != nil || c1 == nil || c2 == nil || n1 != 1:
+						if reported < 3 {
+							r.Mismatch(ops, fmt.Sprintf("first request: %s wrote %d err %v; second: %s wrote %d err %v", ctrS(c1), n1, err1, ctrS(c2), n2, err2), "1 1 ; (2 1 | 1 0)", "pair grid: a request failed")
+							reported++
+						}
+					case n2 == 0 && !same:
+						r.SpecFail("withheld-without-identical-unanswered", ops, fmt.Sprintf("request B (destination %s, %d commands %s) withheld with counter %d although the only unanswered request is A (destination %s, %d commands %s): a different request", sndDestS(kd[db]), len(cmds[lb]), lists[lb], *c2, sndDestS(kd[da]), len(cmds[la]), lists[la]))
+					case n2 == 0 && *c2 != *c1:
+						r.SpecFail("withheld-wrong-counter", ops, fmt.Sprintf("withheld request returned %d, the unanswered identical request has %d", *c2, *c1))
+					case n2 == 1 && same && reported < 3:
+						r.Mismatch(ops, "identical unanswered request written again", "withheld", "pair grid")
+						reported++
+					case n2 > 1:
+						r.SpecFail("request-written-twice", ops, fmt.Sprintf("%d datagrams for one request", n2))
+					}
+				}
+			}
+		}
+	}
 }
 
 func lruWitness() []string {
@@ -855,6 +1070,44 @@ func TestSender(t *testing.T) {
 		fly = append(fly, fmt.Sprintf("get %d", c))
 	}
 	runSenderHistory(r, d, fly, true)
+	// ---- request identity: "identical request (same destination, same command)" with 0..3 commands per payload
+	// the seeded-class shapes by hand: equal first command and different tail, different number of commands, the same
+	// commands in another order, the empty list, the same list under another classifier (identical: withheld), then
+	// answered and sent again; single-command `req` and multi-command `reqm` forms of the same request meet
+	runSenderHistory(r, d, []string{"reqm 0 1.2 0", "reqm 0 1.3 0", "reqm 0 1 0", "reqm 0 1.2.3 1", "reqm 0 2.1 0", "reqm 0 - 0",
+		"reqm 0 1.2 2", "req 0 1", "reqm 0 1 1", "reqm 0 - 1", "reqm 1 1.2 0", "reqm 3 1.2 0", "reqm 4 1.2 0", "reqm 5 1.2 0",
+		"reqm 6 1.2 0", "reqm 7 1.2 0", "resp 1", "reqm 0 1.2 0", "reqm 0 1.3 0", "reqmf 0 2.2 0 0", "reqm 0 2.2 0", "reqm 0 2 0",
+		"reqmf 0 2.2 0 3", "reqm 0 1 0", "resp 3", "reqm 0 1 2", "reqm 0 1.1 0", "reqm 0 1.1.1 0", "reqm 0 1.1 1"}, true)
+	lists := sndLists(2, 3)
+	nkd := len(sndKDests())
+	// every list to one destination, twice (the second round is withheld list by list), half of them answered, once more
+	for di := 0; di < nkd; di++ {
+		var ops []string
+		for round := 0; round < 3; round++ {
+			for li, l := range lists {
+				ops = append(ops, fmt.Sprintf("reqm %d %s %d", di, l, (li+round)%3))
+			}
+			if round == 1 {
+				for c := 1; c <= len(lists); c += 2 {
+					ops = append(ops, fmt.Sprintf("resp %d", c))
+				}
+			}
+		}
+		runSenderHistory(r, d, ops, true)
+	}
+	// one list to every destination, twice
+	for _, l := range lists {
+		var ops []string
+		for round := 0; round < 2; round++ {
+			for di := 0; di < nkd; di++ {
+				ops = append(ops, fmt.Sprintf("reqm %d %s %d", di, l, round))
+			}
+		}
+		runSenderHistory(r, d, ops, true)
+	}
+	// EXHAUSTIVE: every ordered pair of requests (destination x command list) on a fresh Sender, the first unanswered:
+	// the second is withheld iff it is the identical request (judged by the SPEC; the "if" direction is the model's)
+	sndPairGrid(r, sndLists(h.Scale(2, 3), 3))
 	rng := h.Rng(13)
 	hist := h.Scale(150, 1500)
 	for i := 0; i < hist; i++ {
